@@ -269,6 +269,10 @@ class CircularSpinChain(SpinChain):
         )
 
     def topology_map(self, qc):
+        if qc.N < self.num_qubits:
+            # The ring closes between the first and the last qubit of the
+            # processor; the qubits of a smaller circuit form an open chain.
+            return to_chain_structure(qc, "linear")
         return to_chain_structure(qc, "circular")
 
 
